@@ -10,6 +10,16 @@ from vlib import *
 from dbsession import DB, Ref, canon_rows, scan_rows
 
 BASE = [(1, 10, "r1"), (2, 20, "r2"), (3, 20, "r3"), (4, 30, "r4")]
+UROWS = [(10, 1), (20, 2)]      # small static second table u(x, y) for join reads
+# static filler rows of t (never touched by a statement: other keys, other values): with them and fresh statistics the
+# optimizer joins u and t by an index join on t.a (the probe goes through the point scan executor)
+FILL = []
+FILLER = [(100 + i, 50 + i, "f") for i in range(30)]
+JOIN_SQL = "SELECT t.k, u.y FROM u, t WHERE u.x = t.a;"
+
+
+def join_want(view):
+    return "ok:" + ";".join(sorted("i:%d,i:%d" % (k, y) for (k, a, b) in view for (x, y) in UROWS if x == a))
 LONG = "L" * 200
 
 
@@ -89,6 +99,17 @@ def gen_program(rng, mode):
     ntx = rng.choice([2, 2, 3])
     prog = []
     nextk = 50
+    if mode == "mixed" and rng.random() < 0.15:
+        # directed shape: one transaction changes a row (delete / key-changing update / insert) and stays open while another reads
+        # the whole table through the sequential scan and through an index range
+        kk = rng.choice([1, 2, 3, 4])
+        w = rng.choice([("DELETE FROM t WHERE k = %d;" % kk, ["D {T} c0 eq i:%d" % kk], None, "delete"),
+                        ("UPDATE t SET a = 40 WHERE k = %d;" % kk, ["U {T} 1=i:40 c0 eq i:%d" % kk], None, "update-key"),
+                        ("INSERT INTO t(k,a,b) VALUES (77, 20, 'n77');", ["R {T} i:77,i:20,s:%s" % b"n77".hex()], None, "insert")])
+        rd = [("SELECT k,a FROM t WHERE k < 100 OR k < 100;", [], "S {T} 0,1 c0 lt i:100 c0 lt i:100 or", "read-seq")]
+        if rng.random() < 0.5:
+            rd.append(("SELECT k,a FROM t WHERE k < 100 OR k < 100;", [], "S {T} 0,1 c0 lt i:100 c0 lt i:100 or", "read-seq"))
+        return [([w], rng.choice(["commit", "abort"])), (rd, "commit")]
     for t in range(ntx):
         n = rng.randrange(1, 4) if ntx == 2 else rng.randrange(1, 3)
         stmts = []
@@ -106,12 +127,17 @@ def gen_program(rng, mode):
                 else:
                     stmts.append(("SELECT k,a FROM t WHERE a >= %d AND a <= 30;" % v, [], "S {T} 0,1 c1 ge i:%d c1 le i:30 and" % v, "read-range"))
                 continue
-            if r < 0.16:
+            if r < 0.05:
+                # the whole table through the sequential scan: a row hidden (or shown) wrongly always shows up in the answer
+                stmts.append(("SELECT k,a FROM t WHERE k < 100 OR k < 100;", [], "S {T} 0,1 c0 lt i:100 c0 lt i:100 or", "read-seq"))
+            elif r < 0.16:
                 stmts.append(("SELECT k,a FROM t WHERE a = %d;" % v, [], "S {T} 0,1 c1 eq i:%d" % v, "read-point"))
             elif r < 0.30:
                 stmts.append(("SELECT k,a FROM t WHERE a >= %d AND a <= 30;" % v, [], "S {T} 0,1 c1 ge i:%d c1 le i:30 and" % v, "read-range"))
             elif r < 0.42:
                 stmts.append(("SELECT k,a FROM t WHERE a = %d OR a = %d;" % (v, v), [], "S {T} 0,1 c1 eq i:%d c1 eq i:%d or" % (v, v), "read-seq"))
+            elif r < 0.47:
+                stmts.append((JOIN_SQL, [], "JOIN", "read-join"))
             elif r < 0.52:
                 stmts.append(("SELECT a FROM t WHERE k = %d;" % k, [], "S {T} 1 c0 eq i:%d" % k, "read-pk"))
             elif r < 0.64:
@@ -124,6 +150,11 @@ def gen_program(rng, mode):
                 stmts.append(("UPDATE t SET a = %d WHERE k = %d;" % (nv, k), ["U {T} 1=i:%d c0 eq i:%d" % (nv, k)], None, "update-key"))
             else:
                 stmts.append(("UPDATE t SET b = '%s' WHERE k = %d;" % (LONG, k), ["U {T} 2=s:%s c0 eq i:%d" % (LONG.encode().hex(), k)], None, "update-grow"))
+        if mode == "mixed" and rng.random() < 0.2:
+            # a transaction that deletes one of two rows sharing an index key and then reads that key through a join (own deletes
+            # must be skipped by the index probe, the other row must still be found)
+            kk = rng.choice([2, 3])
+            stmts = [("DELETE FROM t WHERE k = %d;" % kk, ["D {T} c0 eq i:%d" % kk], None, "delete"), (JOIN_SQL, [], "JOIN", "read-join")]
         end = "commit" if rng.random() < 0.75 else "abort"
         prog.append((stmts, end))
     return prog
@@ -145,20 +176,20 @@ def interleavings(prog):
 
 
 def reset_table(db):
-    r = db.sql("DELETE FROM t WHERE k >= 0 OR k >= 0;")
+    r = db.sql("DELETE FROM t WHERE k < 100 OR k < 100;")
     for (k, a, b) in BASE:
         db.sql("INSERT INTO t(k,a,b) VALUES (%d, %d, '%s');" % (k, a, b))
     return scan_rows(db.cmd("scan t"))
 
 
 def run_schedule(db, ref, prog, sched, res, fails, mode, prop):
-    want0 = "ok:" + ";".join(sorted("i:%d,i:%d,s:%s" % (k, a, b.encode().hex()) for k, a, b in BASE))
+    want0 = "ok:" + ";".join(sorted("i:%d,i:%d,s:%s" % (k, a, b.encode().hex()) for k, a, b in BASE + FILL))
     got0 = reset_table(db)
     if got0 != want0:
         fails.append(("reset", "table could not be reset to the base rows: %s" % got0[:200]))
         return False
     sim = Sim(ref)
-    sim.committed = {r[0]: r for r in BASE}
+    sim.committed = {r[0]: r for r in BASE + FILL}
     alive = {t: True for t in range(len(prog))}
     for t in range(len(prog)):
         db.cmd("begin x%d" % t)
@@ -202,12 +233,14 @@ def run_schedule(db, ref, prog, sched, res, fails, mode, prop):
         if db.dead or not ans.startswith("ok"):
             fails.append(("\n".join(log), "statement fails inside a schedule: %s" % (ans if not db.dead else db.dead)))
             return False
-        want = sim.apply(t, refcmds, query)
+        want = join_want(sim.view(t)) if kind == "read-join" else sim.apply(t, refcmds, query)
+        if kind == "read-join":
+            res.extra["join_reads"] = res.extra.get("join_reads", 0) + 1
         res.extra["completed_statements"] = res.extra.get("completed_statements", 0) + 1
         if query and canon_rows(ans) != want:
             others_dirty = [o for o in dirty_key_update if o != t]
             msg = "x%d: %s answered %s but committed data + own writes give %s" % (t, sql, canon_rows(ans)[:200], want[:200])
-            if others_dirty and kind in ("read-point", "read-range"):
+            if others_dirty and kind in ("read-point", "read-range", "read-join"):
                 tainted.add(t)
                 res.known_hits["F-IDX-DIRTY"] = ("an uncommitted key-changing update / delete of another transaction removes or moves the index entry at execution time, "
                                                  "so an index scan silently misses (or cannot see the old key of) a committed row: " + msg[:300])
@@ -219,11 +252,13 @@ def run_schedule(db, ref, prog, sched, res, fails, mode, prop):
     # final state: committed transactions in commit order, serially (C05)
     final = scan_rows(db.cmd("scan t"))
     ref.cmd("T F 3")
-    for (k, a, b) in BASE:
+    for (k, a, b) in BASE + FILL:
         ref.cmd("R F i:%d,i:%d,s:%s" % (k, a, b.encode().hex()))
     serial_ok = True
     for t in commit_order:
         for (sql, refcmds, query, ans) in executed[t]:
+            if query == "JOIN":
+                continue
             if query:
                 w = ref.cmd(query.replace("{T}", "F"))
                 real_rows = set(canon_rows(ans)[3:].split(";")) - {""}
@@ -291,8 +326,16 @@ def run(res, replay=None, mode="mixed", prop="C04"):
     db, ref = DB(mem_kb=400), Ref()
     fails = []
     try:
-        if not db.open().startswith("ok") or not db.sql("CREATE TABLE t(k int, a int, b varchar(255));").startswith("ok"):
+        if not db.open().startswith("ok") or not db.sql("CREATE TABLE t(k int, a int, b varchar(255));").startswith("ok") or not db.sql("CREATE TABLE u(x int, y int);").startswith("ok"):
             res.oracle_failures.append(("open", "set-up failed")); return
+        for (x, y) in UROWS:
+            db.sql("INSERT INTO u(x,y) VALUES (%d, %d);" % (x, y))
+        FILL[:] = FILLER if mode == "mixed" else []
+        for (k, a, b) in FILL:
+            db.sql("INSERT INTO t(k,a,b) VALUES (%d, %d, '%s');" % (k, a, b))
+        reset_table(db)
+        db.cmd("stats")
+        res.extra["join_plan"] = db.cmd("plan " + JOIN_SQL)
         for p in range(nprog):
             prog = gen_program(rng, mode)
             scheds = list(interleavings(prog))
@@ -306,7 +349,12 @@ def run(res, replay=None, mode="mixed", prop="C04"):
                 ok = run_schedule(db, ref, prog, sc, res, fails, mode, prop)
                 if db.dead:
                     fails.append(("program %s schedule %s" % (prog, sc), "engine stopped answering: " + db.dead))
-                    db.destroy(); db = DB(mem_kb=400); db.open(); db.sql("CREATE TABLE t(k int, a int, b varchar(255));")
+                    db.destroy(); db = DB(mem_kb=400); db.open(); db.sql("CREATE TABLE t(k int, a int, b varchar(255));"); db.sql("CREATE TABLE u(x int, y int);")
+                    for (x, y) in UROWS:
+                        db.sql("INSERT INTO u(x,y) VALUES (%d, %d);" % (x, y))
+                    for (k, a, b) in FILL:
+                        db.sql("INSERT INTO t(k,a,b) VALUES (%d, %d, '%s');" % (k, a, b))
+                    db.cmd("stats")
                 if len(fails) >= 5:
                     break
             if len(res.samples) < 3:
